@@ -94,7 +94,7 @@ def norm_tree(x, osc_field=False):
         osc = osc_field or (x.get("k") in ("call", "bin", "index", "assignop") and touches_osc_raw(x))
         out = {}
         for k, v in x.items():
-            if k in ("ln", "mac", "file"):
+            if k in ("ln", "mac", "file", "copy_of"):
                 continue
             if k in ("callee", "resolved") and isinstance(v, str) and osc:
                 out[k] = norm_callee(v)
